@@ -545,10 +545,13 @@ def main(argv):
                "it as a constant expression (defined C++ result); distinct by SHA-1 of the text")
     ck.assumptions = ["LP64 host, two's complement, IEEE-754", "g++ -std=c++17 constant evaluation is the reference C++ semantics",
                       "long and long long are identified (same width and signedness)"]
+    stamps = [("start", time.time())]
     ck.translate(["gen_prim"])
     ck.prove("C14")
+    stamps.append(("proofs", time.time()))
     hb = ck.harness("h_prim")
     db = ck.driver("drv_prim")
+    stamps.append(("harness+driver", time.time()))
     if hb is None or db is None:
         ck.finish(META["level_text"])
     env = {"ASAN_OPTIONS": "detect_leaks=0:abort_on_error=0:exitcode=66:allocator_may_return_null=1:handle_sigfpe=0"}
@@ -588,8 +591,10 @@ def main(argv):
     model = [x.split(" | ")[1] for x in sres]
     flags = [x.split(" | ")[2].split(",") for x in sres]
 
+    stamps.append(("generate+spec", time.time()))
     # 2. the host compiler's verdict
     host = host_compiler(ck, [t for _, t in cands], workers=4 if ck.tier == "quick" else 8)
+    stamps.append(("host compilers", time.time()))
 
     # 3. specification vs host compiler: validates CxxSem (value, type, and definedness)
     cnt = ck.cov["counters"]
@@ -657,7 +662,9 @@ def main(argv):
     def nontrivial(h, impl):
         return any(l.startswith("E T:") for l in h) or any(l.startswith("P ") for l in h)
     ck.correspond(hb, db, hs, label="constfold", env=env, nontrivial=nontrivial, timeout=1800)
+    stamps.append(("occa+model", time.time()))
     shrink_violations(ck, hb, db, env)
+    ck.notes.append("stage seconds: " + ", ".join("%s %.0f" % (n, t - stamps[i][1]) for i, (n, t) in enumerate(stamps[1:])))
     cnt["expressions_evaluated_by_occa"] = len(corpus_lines) + len(known_lines) + len(gen_lines)
     ck.cov["evaluations"] = sum(len(h) for h in hs) + len(known_lines)
     ck.cov["distinct_nontrivial"] = len(set(l for h in hs for l in h if l.startswith("E T:")))
